@@ -103,6 +103,10 @@ def Match(e, arms, dflt=None):
             "dflt": dflt if dflt is not None else NIL}
 
 
+def FnLit(ps, body, ret="null", pts=None):
+    return {"k": "fnlit", "ps": list(ps), "pts": pts or ["int"] * len(ps), "ret": ret, "body": body}
+
+
 def Try(b, x, c):
     return {"k": "try", "b": b, "x": x, "c": c}
 
@@ -333,6 +337,12 @@ def r_expr(w, n, ind):
         r_block(w, n["b"], ind)
         w.w(" catch %s " % n["x"])
         r_block(w, n["c"], ind)
+    elif k == "fnlit":
+        w.w("fn(%s)" % ", ".join("%s: %s" % (a, t) for a, t in zip(n["ps"], n["pts"])))
+        if n["ret"] != "null":
+            w.w(" -> " + n["ret"])
+        w.w(" ")
+        r_block(w, n["body"], ind)
     elif k == "cast":
         w.w("(")
         r_expr(w, n["e"], ind)
